@@ -36,6 +36,7 @@ CheckCase ==
                /\ Ev.back.read = "ok" => Clause("roundtrip", SameMap(Ev.back.map, NormAttrs(Ev.map)))
                \* the same blob is what both file formats store: the map on the first of three sibling instances, the
                \* stored bytes recovered by reading the files without the database
+               /\ ("chunked" \in DOMAIN Ev) => Clause("sink-independent", Ev.chunked = Ev.blob)
                /\ ("files" \in DOMAIN Ev /\ "expected" \in DOMAIN Ev.files) =>
                      /\ Clause("files-own-blob", Ev.files.expected[1] = Ev.blob)
                      /\ Clause("files-binary", Ev.files.bin = Ev.files.expected)
